@@ -17,7 +17,7 @@ package cutter
 //@     invariant len(ops) == _k
 //@     invariant forall q int :: 0 <= q && q < _k ==> opsAtTime[q].ProtocolVersion == opsAtTime[0].ProtocolVersion
 //@     invariant _k > 0 ==> protocolVersion == opsAtTime[0].ProtocolVersion
-//@     invariant forall q int :: 0 <= q && q < len(ops) ==> ops[q] != nil && ops[q].UniqueSuffix == opsAtTime[q].UniqueSuffix && ops[q].Type == opsAtTime[q].Type && ops[q].OperationRequest == opsAtTime[q].OperationRequest && ops[q].Namespace == opsAtTime[q].Namespace
+//@     invariant forall q int :: 0 <= q && q < len(ops) ==> ops[q] != nil && allocated(ops[q]) && fresh(ops[q]) && ops[q].UniqueSuffix == opsAtTime[q].UniqueSuffix && ops[q].Type == opsAtTime[q].Type && ops[q].OperationRequest == opsAtTime[q].OperationRequest && ops[q].Namespace == opsAtTime[q].Namespace
 //@   ensures len(r0) <= len(opsAtTime)
 //@   ensures forall q int :: 0 <= q && q < len(r0) ==> opsAtTime[q].ProtocolVersion == opsAtTime[0].ProtocolVersion
 //@   ensures len(r0) < len(opsAtTime) ==> opsAtTime[len(r0)].ProtocolVersion != opsAtTime[0].ProtocolVersion
